@@ -1860,21 +1860,28 @@ func (s *Server) findStorageHistoric(reqParams params.Params) (any, *neorpc.Erro
 		return nil, respErr
 	}
 
-	return s.findStorageInternal(id, prefix, start, take, mptStorageSeeker{
+	seeker := &mptStorageSeeker{
 		root:   root,
 		module: s.chain.GetStateModule(),
-	})
+	}
+	res, respErr := s.findStorageInternal(id, prefix, start, take, seeker)
+	if respErr == nil && seeker.err != nil {
+		return nil, neorpc.WrapErrorWithData(neorpc.ErrUnknownStateRoot, seeker.err.Error())
+	}
+	return res, respErr
 }
 
 // mptStorageSeeker is an auxiliary structure that implements ContractStorageSeeker interface.
 type mptStorageSeeker struct {
 	root   util.Uint256
 	module core.StateRoot
+	// err is the error of the last SeekStorage call.
+	err error
 }
 
-func (s mptStorageSeeker) SeekStorage(id int32, prefix []byte, cont func(k, v []byte) bool) {
+func (s *mptStorageSeeker) SeekStorage(id int32, prefix []byte, cont func(k, v []byte) bool) {
 	key := makeStorageKey(id, prefix)
-	s.module.SeekStates(s.root, key, cont)
+	s.err = s.module.SeekStates(s.root, key, cont)
 }
 
 func (s *Server) getFindStorageParams(reqParams params.Params, root ...util.Uint256) (int32, []byte, int, int, *neorpc.Error) {
